@@ -6,7 +6,7 @@ import random
 from . import common
 from . import det_suite as ds
 
-FLAGSETS = [{}, {"experimental-struct-init": "true"}, {"experimental-anonymous-function": "true"}, {"experimental-struct-init-v2": "true"},
+FLAGSETS = [{}, {"exclude-file-docstrings": "Code generated,@generated"}, {"experimental-struct-init": "true"}, {"experimental-anonymous-function": "true"}, {"experimental-struct-init-v2": "true"},
             {"group-error-messages": "false", "pretty-print": "true"}]
 
 
@@ -36,7 +36,7 @@ def run(ctx):
     bad, npk = [], 0
     try:
         for d, _ in mods:
-            for flags in (FLAGSETS if ctx.tier == "thorough" else FLAGSETS[:3]):
+            for flags in (FLAGSETS if ctx.tier == "thorough" else FLAGSETS[:4]):
                 args = ["readonly", "-dir", d]
                 for k, v in flags.items():
                     args += ["-flag", "%s=%s" % (k, v)]
